@@ -18,6 +18,13 @@ pub ghost struct WorldState {
 }
 pub tracked struct World { pub ghost s: WorldState }
 pub const PIPE_BUF: usize = 4096;
+// ghost transition: a new read() call starts; its deadline becomes the deadline of the exchange and stale poll results are forgotten
+pub axiom fn begin_read(tracked w: &mut World, d: Option<nat>)
+    ensures final(w).s == (WorldState { deadline: d, r0: false, r1: false, r2: false, ..old(w).s });
+
+// trusted: the machine does not run for 2^96 ns (2.5e12 years); every model call re-establishes this
+pub open spec fn clock_ok(w: WorldState) -> bool { w.now < 0x1_0000_0000_0000_0000_0000_0000 }
+pub open spec const T_MAX: nat = 0x10_0000_0000_0000_0000_0000_0000;   // 2^100: bound on deadlines handed to the loop (std's Instant arithmetic would have panicked far earlier)
 pub struct File { pub slot: Ghost<int> }
 
 pub open spec fn rs(w: WorldState, k: int) -> RStream { if k == 1 { w.sout } else { w.serr } }
@@ -45,6 +52,35 @@ pub open spec fn same_rdy_except(a: WorldState, b: WorldState, k: int) -> bool {
 }
 pub open spec fn remaining(s: RStream) -> nat { (s.data.len() - s.pos) as nat }
 
+// ---- byte-exact accounting, kept abstract so that the loop proof is algebra over these two functions (the
+// sequence structure is only opened inside the four lemmas below)
+// the bytes taken from a read stream between two of its states
+pub closed spec fn consumed(s0: RStream, s1: RStream) -> Seq<u8> { s0.data.subrange(s0.pos as int, s1.pos as int) }
+// the first `pos` bytes of the input
+pub closed spec fn delivered(d: Seq<u8>, pos: int) -> Seq<u8> { d.subrange(0, pos) }
+
+pub broadcast proof fn lemma_consumed_len(s0: RStream, s1: RStream)
+    requires s0.data == s1.data, s0.pos <= s1.pos <= s0.data.len()
+    ensures (#[trigger] consumed(s0, s1)).len() == s1.pos - s0.pos
+{ }
+pub broadcast proof fn lemma_consumed_none(b: Seq<u8>, s0: RStream, s1: RStream)
+    requires s0.pos == s1.pos, s0.pos <= s0.data.len()
+    ensures #[trigger] (b + consumed(s0, s1)) == b
+{ assert(b + consumed(s0, s1) =~= b); }
+pub broadcast proof fn lemma_consumed_step(b: Seq<u8>, s0: RStream, s1: RStream, s2: RStream)
+    requires s0.data == s1.data, s1.data == s2.data, s0.pos <= s1.pos <= s2.pos <= s0.data.len()
+    ensures #[trigger] ((b + consumed(s0, s1)) + consumed(s1, s2)) == b + consumed(s0, s2)
+{ assert((b + consumed(s0, s1)) + consumed(s1, s2) =~= b + consumed(s0, s2)); }
+pub broadcast proof fn lemma_delivered_step(d: Seq<u8>, pos: int, x: Seq<u8>, n: int)
+    requires 0 <= pos <= d.len(), x.len() <= d.len() - pos, x == d.subrange(pos, d.len() as int).subrange(0, x.len() as int), 0 <= n <= x.len()
+    ensures #[trigger] (delivered(d, pos) + x.subrange(0, n)) == delivered(d, pos + n)
+{ assert(delivered(d, pos) + x.subrange(0, n) =~= delivered(d, pos + n)); }
+pub broadcast proof fn lemma_delivered_ends(d: Seq<u8>)
+    ensures #[trigger] delivered(d, 0) == Seq::<u8>::empty(), #[trigger] delivered(d, d.len() as int) == d
+{ assert(delivered(d, 0) =~= Seq::<u8>::empty()); assert(delivered(d, d.len() as int) =~= d); }
+pub broadcast group bytes_lemmas { lemma_consumed_len, lemma_consumed_none, lemma_consumed_step, lemma_delivered_step, lemma_delivered_ends }
+
+
 pub mod io {
     use vstd::prelude::*;
     #[derive(PartialEq, Eq)]
@@ -66,7 +102,7 @@ impl File {
             may_io(old(w).s, self.slot@),
         ensures
             final(buf)@.len() == old(buf)@.len(),
-            same_cfg(old(w).s, final(w).s),
+            same_cfg(old(w).s, final(w).s), clock_ok(final(w).s),
             same_rdy_except(old(w).s, final(w).s, self.slot@),
             final(w).s.sin == old(w).s.sin,
             self.slot@ == 1 ==> final(w).s.serr == old(w).s.serr,
@@ -77,8 +113,8 @@ impl File {
                     let s1 = rs(final(w).s, self.slot@);
                     &&& n <= old(buf)@.len() && n <= remaining(s0)
                     &&& (n == 0 <==> (old(buf)@.len() == 0 || remaining(s0) == 0))
-                    &&& final(buf)@.subrange(0, n as int) == s0.data.subrange(s0.pos as int, s0.pos + n)
                     &&& s1.data == s0.data && s1.pos == s0.pos + n
+                    &&& final(buf)@.subrange(0, n as int) == consumed(s0, s1)     // = s0.data[s0.pos .. s0.pos + n]
                     &&& s1.eof_seen == (s0.eof_seen || (n == 0 && old(buf)@.len() > 0))
                 },
                 Err(e) => e.kind != io::ErrorKind::TimedOut && rs(final(w).s, self.slot@) == rs(old(w).s, self.slot@),
@@ -92,7 +128,7 @@ impl File {
             may_io(old(w).s, 0),
             buf@.len() <= PIPE_BUF,   // a write of at most PIPE_BUF bytes after POLLOUT cannot block
         ensures
-            same_cfg(old(w).s, final(w).s),
+            same_cfg(old(w).s, final(w).s), clock_ok(final(w).s),
             same_rdy_except(old(w).s, final(w).s, 0),
             final(w).s.sout == old(w).s.sout, final(w).s.serr == old(w).s.serr,
             final(w).s.sin.intended == old(w).s.sin.intended,
@@ -140,6 +176,16 @@ impl core::cmp::PartialOrd for Instant {
 }
 impl Duration {
     pub fn from_secs(s: u64) -> (d: Duration) ensures d.ns == s * 1_000_000_000 { Duration { ns: s as u128 * 1_000_000_000 } }
+    pub fn as_millis(&self) -> (r: u128) ensures r == self.ns / 1_000_000 { self.ns / 1_000_000 }
+}
+impl AddSpecImpl<Duration> for Instant {
+    open spec fn obeys_add_spec() -> bool { true }
+    open spec fn add_req(self, rhs: Duration) -> bool { self.t + rhs.ns <= u128::MAX }   // std panics on overflow
+    open spec fn add_spec(self, rhs: Duration) -> Instant { Instant { t: (self.t + rhs.ns) as u128 } }
+}
+impl core::ops::Add<Duration> for Instant {
+    type Output = Instant;
+    fn add(self, rhs: Duration) -> Instant { Instant { t: self.t + rhs.ns } }
 }
 impl Instant {
     #[verifier::external_body]
@@ -151,6 +197,7 @@ pub open spec fn floor_ms_ns(d: Duration) -> nat { ((d.ns as nat) / 1_000_000) *
 pub mod posix {
     use vstd::prelude::*;
     use super::*;
+    pub use super::posix_impl::poll;   // the real wrapper, extracted from src/posix.rs
     pub const POLLIN: i16 = 0x1;
     pub const POLLOUT: i16 = 0x4;
     pub const POLLERR: i16 = 0x8;
@@ -209,28 +256,40 @@ pub mod posix {
     pub open spec fn slot_ready(fds: Seq<PollFd<'_>>, k: int) -> bool {
         exists|i: int| 0 <= i < fds.len() && #[trigger] fds[i].fd.is_some() && fds[i].fd.unwrap().slot@ == k && fds[i].revents != 0
     }
+    // C01: a wait covers every unfinished stream of the exchange
+    pub open spec fn covers_live(w: WorldState, fds: Seq<PollFd<'_>>) -> bool {
+        (live(w, 0) ==> slot_polled(fds, 0)) && (live(w, 1) ==> slot_polled(fds, 1)) && (live(w, 2) ==> slot_polled(fds, 2))
+    }
+    pub open spec fn ms_ns(ms: i32) -> nat { (ms as nat) * 1_000_000 }
+    // The single system call.  R6: stands for the two statements
+    //     let fds_ptr = fds.as_ptr() as *mut libc::pollfd;
+    //     let cnt = unsafe { check_err(libc::poll(fds_ptr, fds.len() as libc::nfds_t, timeout_ms))? };
+    // (PollFd is #[repr(C)] over libc::pollfd; the pointer/length pair and check_err are discharged by Kani, see kani/).
     #[verifier::external_body]
-    pub fn poll(fds: &mut [PollFd<'_>], timeout: Option<Duration>, Tracked(w): Tracked<&mut World>) -> (r: io::Result<usize>)
+    pub fn libc_poll(fds: &mut [PollFd<'_>], timeout_ms: i32, Tracked(w): Tracked<&mut World>) -> (r: io::Result<i32>)
         requires
             forall|i: int| 0 <= i < old(fds)@.len() && old(fds)@[i].fd.is_some() ==> 0 <= #[trigger] old(fds)@[i].fd.unwrap().slot@ < 3,
+            timeout_ms >= -1,
             // C01: a wait must cover every unfinished stream of the exchange
-            forall|k: int| 0 <= k < 3 && live(old(w).s, k) ==> slot_polled(old(fds)@, k),
-            // C04: never wait past the deadline, never wait without bound when there is one
-            match timeout { None => old(w).s.deadline.is_none(), Some(d) => old(w).s.deadline.is_some() && (d.ns == 0 || old(w).s.now + d.ns <= old(w).s.deadline.unwrap()) },
+            covers_live(old(w).s, old(fds)@), //[C01]
+            // C04: never wait without bound when there is a deadline, never wait past it
+            timeout_ms == -1 ==> old(w).s.deadline.is_none(), //[C04]
+            timeout_ms > 0 ==> old(w).s.deadline.is_some() && old(w).s.now + ms_ns(timeout_ms) <= old(w).s.deadline.unwrap(), //[C04]
         ensures
             final(fds)@.len() == old(fds)@.len(),
-            forall|i: int| 0 <= i < old(fds)@.len() ==> (#[trigger] final(fds)@[i]).fd == old(fds)@[i].fd && final(fds)@[i].events == old(fds)@[i].events,
-            final(w).s.now >= old(w).s.now,
+            forall|i: int| #![trigger final(fds)@[i]] #![trigger old(fds)@[i]] 0 <= i < old(fds)@.len() ==> final(fds)@[i].fd == old(fds)@[i].fd && final(fds)@[i].events == old(fds)@[i].events,
+            final(w).s.now >= old(w).s.now, clock_ok(final(w).s),
             final(w).s.deadline == old(w).s.deadline,
             final(w).s.sin == old(w).s.sin, final(w).s.sout == old(w).s.sout, final(w).s.serr == old(w).s.serr,
             final(w).s.ready_at == old(w).s.now,
             match r {
                 Ok(cnt) => {
+                    &&& cnt >= 0
                     &&& forall|i: int| 0 <= i < old(fds)@.len() && old(fds)@[i].fd.is_none() ==> (#[trigger] final(fds)@[i]).revents == 0
                     &&& forall|i: int| 0 <= i < old(fds)@.len() && old(fds)@[i].fd.is_some() ==> allowed_revents(old(fds)@[i].fd.unwrap().slot@, (#[trigger] final(fds)@[i]).revents)
                     &&& final(w).s.r0 == slot_ready(final(fds)@, 0) && final(w).s.r1 == slot_ready(final(fds)@, 1) && final(w).s.r2 == slot_ready(final(fds)@, 2)
                     &&& (cnt == 0 <==> forall|i: int| 0 <= i < old(fds)@.len() ==> (#[trigger] final(fds)@[i]).revents == 0)
-                    &&& (cnt == 0 ==> timeout.is_some() && final(w).s.now >= old(w).s.now + floor_ms_ns(timeout.unwrap()))
+                    &&& (cnt == 0 ==> timeout_ms >= 0 && final(w).s.now >= old(w).s.now + ms_ns(timeout_ms))
                 },
                 Err(e) => e.kind != io::ErrorKind::TimedOut && !final(w).s.r0 && !final(w).s.r1 && !final(w).s.r2,
             }
